@@ -17,7 +17,7 @@ import (
 
 type c14 struct{}
 
-func init() { core.Register(c14{}) }
+func init()            { core.Register(c14{}) }
 func (c14) ID() string { return "C14" }
 
 type msOp struct {
